@@ -478,6 +478,12 @@ import rs2v_client  # noqa: E402
 GENERATORS["ClientConsts.v"] = lambda: rs2v_client.gen_client_consts(read, strip_comments, match_brace, TieError)
 
 
+# ---------------------------------------------------------------- C16: derive contract (tools/rs2v_derive.py)
+import rs2v_derive  # noqa: E402
+
+GENERATORS["DeriveConsts.v"] = lambda: rs2v_derive.gen_derive_consts(read, strip_comments, match_brace, repr_enum, coq_str, TieError)
+
+
 def main():
     os.makedirs(OUT, exist_ok=True)
     status = 0
